@@ -363,6 +363,11 @@ def _collect_extensions(  # noqa: C901
                     )
                 else:
                     continue
+            elif name in type_defs:
+                raise ExtensionError(
+                    'Duplicate type "%s" in schema extension.' % name,
+                    [definition],
+                )
             else:
                 type_defs[name] = definition
 
@@ -377,6 +382,11 @@ def _collect_extensions(  # noqa: C901
                     )
                 else:
                     continue
+            elif name in directive_defs:
+                raise ExtensionError(
+                    'Duplicate directive "@%s" in schema extension.' % name,
+                    [definition],
+                )
             else:
                 directive_defs[name] = definition
 
